@@ -27,6 +27,7 @@ type SpecSym struct {
 	extDeps   map[string]bool
 	Guard     *Term // type invariant of the parameters (byte ranges)
 	ResIv     []*ival // interval of each integer result, derived from the body
+	Uninterpreted bool // no definition: body is panic("uninterpreted ...")
 }
 
 type funcSig struct {
@@ -151,6 +152,25 @@ func (d *Defs) sym(fn *ssa.Function) (*SpecSym, error) {
 	d.syms[fn] = s
 	if len(d.stack) > 0 {
 		d.stack[len(d.stack)-1].deps[s] = true
+	}
+	// a spec function whose body is just panic("uninterpreted ...") is an uninterpreted symbol
+	if len(fn.Blocks) == 1 {
+		onlyPanic := false
+		for _, ins := range fn.Blocks[0].Instrs {
+			switch ins.(type) {
+			case *ssa.Panic:
+				onlyPanic = true
+			case *ssa.MakeInterface, *ssa.DebugRef:
+			default:
+				onlyPanic = false
+			}
+		}
+		if onlyPanic {
+			s.inProg = false
+			s.Uninterpreted = true
+			d.order = append(d.order, s)
+			return s, nil
+		}
 	}
 	d.stack = append(d.stack, s)
 	defer func() { d.stack = d.stack[:len(d.stack)-1] }()
